@@ -14,6 +14,8 @@ THEOREMS = [
     ('EAO.Properties.C09', 'EAO.C09.assemble_value', 'value = sum of the assets\' values on their blocks'),
     ('EAO.Properties.C09', 'EAO.C09.assemble_perm', 'for a permutation of the asset list every feasible point rearranges block-wise into a feasible point of the permuted problem with the same value and the same block per asset (assets whose rows mention only their own variables)'),
 ]
+from ..comp import nestedperm as NP
+THEOREMS = THEOREMS + NP.THEOREMS_C09_NESTED
 COMPONENTS = ['assemble also on the captured asset problems of the portfolios that went through a door (json, set_param) and of the nested streams', 'hypotheses of the assembly theorems (well-formedness of asset problems) evaluated on every captured real asset problem', 'assemble on captured asset problems for the original, the renamed, the permuted and the renamed-in-place portfolio (hypotheses also on the latter)']
 RULE = ('random portfolios, each re-run (a) under an adversarial injective renaming of assets and nodes (numeric names, prefixes/suffixes of each other, names containing " (", "_internal_", "nan") and (b) under a random permutation of the assets, '
         '(c) rename-inplace: the objects are built once under the original names and, as drawn, optimised / set up / left alone; then the very same Node and Asset objects (incl. base assets of scaled and wrapped assets of structured assets) '
@@ -100,6 +102,10 @@ def scenarios(seed, tier):
         yield cid, s
     for cid, s in wide_scenarios(seed, tier):
         yield cid, s
+    # permutations and renamings INSIDE wrappers: model vs real structured problems and the statements of EAO.C09N on both (comp/nestedperm.py)
+    _rnp = random.Random(seed * 104729 + 909)
+    for i in range(80 if tier == 'quick' else 500):
+        yield 'np%d' % i, {'_stream': 'nestedperm', 'case': NP.gen_case(random.Random(_rnp.getrandbits(48))), 'solve': i % 4 == 0}
 
 
 def finish_case(r2, s, adv_prob=0.3):
@@ -632,6 +638,11 @@ INFO_KEYS = ('amap', 'nmap', 'perm', 'inplace', 'linked', 'stage2', 'prices2', '
 
 
 def run_case(scn, drv):
+    if isinstance(scn, dict) and scn.get('_stream') == 'nestedperm':
+        r0 = NP.run_case(scn['case'], drv, with_oracle=True, solve=bool(scn.get('solve')))
+        return {'evaluated': 1, 'nontrivial': bool(r0.get('compared')), 'features': ['stream:nestedperm', 'kind:' + str(scn['case'].get('kind'))],
+                'disagreements': [d if isinstance(d, dict) else {'component': 'nested wrappers', 'detail': d} for d in r0['disagreements']],
+                'violations': r0['violations']}
     r = {'evaluated': 1, 'nontrivial': False, 'features': [], 'disagreements': [], 'violations': []}
     feats = r['features']
     if scn.get('probe') == 'linked-inner-order':
